@@ -31,7 +31,7 @@ var targets = map[string][]string{
 	"lib/server/ipdb/uip": {"Uip.ToV4", "Uip.Valid"},
 	"lib/server/ipdb":     {"fromTo", "IPDB.toUip", "IPDB.InManagedRange"},
 	"lib/server/replies":  {"assembleUdp", "dstFromFlag", "AssembleOffer", "AssembleACK", "AssembleNACK"},
-	"lib/server":          {"duidFromHwAddr"},
+	"lib/server":          {"duidFromHwAddr", "server.getDuid", "server.handleMsg", "server.handleDiscover", "server.handleRequest", "server.sendNACK", "server.sendMsg"},
 	"lib/client/verify":   {"verifyCommon", "verifyGenAck", "VerifyOffer", "VerifySelectingAck", "VerifyRenewingAck", "VerifyRebindingAck"},
 	"lib/client/msgtmpl":  {"tmpl.request"},
 	"lib/dhcpmsg": {"Decode", "Message.Assemble", "setU16Int", "setU32Int", "setIPv4", "OptionType", "OptionHostname", "OptionDomainName",
@@ -49,6 +49,7 @@ type X struct {
 	hints   map[string]string
 	globals []string
 	gseen   map[*types.Var]string
+	envOps  []envOp
 }
 
 type FuncInfo struct {
@@ -62,13 +63,14 @@ type FuncInfo struct {
 	text      string
 	err       string
 	// shape of the translated function (differs from decl for closure-returning functions)
-	params  []*types.Var  // receiver, parameters, then the parameters of the returned func literal
-	fwd     []types.Type  // forwarder (`return g(args)` with g closure-returning): types of the extra parameters passed on
-	fwdCall *ast.CallExpr // the call being forwarded
-	results *types.Tuple  // results of the translated function
-	body    []ast.Stmt    // statements of the translated function
-	oracles []oracle      // external nondeterministic values (math/rand) turned into trailing parameters
-	closure bool          // the Go function returns a func value (the translation is its uncurried form)
+	params    []*types.Var  // receiver, parameters, then the parameters of the returned func literal
+	fwd       []types.Type  // forwarder (`return g(args)` with g closure-returning): types of the extra parameters passed on
+	fwdCall   *ast.CallExpr // the call being forwarded
+	results   *types.Tuple  // results of the translated function
+	body      []ast.Stmt    // statements of the translated function
+	oracles   []oracle      // external nondeterministic values (math/rand) turned into trailing parameters
+	closure   bool          // the Go function returns a func value (the translation is its uncurried form)
+	effectful bool          // uses the environment `E` (lives in StateT σ R)
 }
 
 type oracle struct{ name, typ string }
@@ -142,6 +144,7 @@ func main() {
 	for _, g := range x.globals {
 		sb.WriteString(g)
 	}
+	sb.WriteString(x.envDef())
 	var report []string
 	for _, fi := range fis {
 		if fi.err != "" {
@@ -221,7 +224,9 @@ func (x *X) shape(fi *FuncInfo, depth int) {
 		fi.params = append(fi.params, sig.Recv())
 	}
 	for i := 0; i < sig.Params().Len(); i++ {
-		fi.params = append(fi.params, sig.Params().At(i))
+		if !dropped(sig.Params().At(i).Type()) {
+			fi.params = append(fi.params, sig.Params().At(i))
+		}
 	}
 	fi.results, fi.body = sig.Results(), fi.decl.Body.List
 	if sig.Results().Len() != 1 {
